@@ -578,7 +578,7 @@ pub fn run(ctx: &Ctx) -> PropReport {
     );
     rep.assumptions.push("raw swap(i,j) is excluded: documented to take vector indices, not stack positions".into());
     rep.push(exhaustive(ctx, ctx.tier.pick(4, 5)));
-    let n = ctx.tier.pick(3000, 150_000);
+    let n = ctx.tier.pick(40_000, 400_000);
     let maxlen = ctx.tier.pick(120usize, 200usize);
     rep.push(run_sharded(
         ctx,
